@@ -124,6 +124,11 @@ def run_case(case):
         try:
             agent = c01._build(case)
             orig = agentops.apply_history(agent, case["history"][: case["save_at"]], case["seed"], rec)
+            # non-default training bookkeeping, so that a checkpoint that drops it is visible
+            u = zoo.unwrap(orig)
+            u.scores = list(u.scores) + [1.5, -2.25]
+            u.fitness = list(u.fitness) + [0.75]
+            u.steps = list(u.steps[:-1]) + [u.steps[-1] + 37, 41]
             s = case["seed"] % 100003
             rollouts, batches = [], []
             for j in range(case["k"]):
